@@ -299,6 +299,16 @@ def graph_impl(G, reg, idx):
     return ';'.join(','.join(map(str, e)) for e in out)
 
 
+def canon_graph(g):
+    """Edge multiset (u, v, registration, direction, weight); the networkx keys are incidental."""
+    es = []
+    for e in g.split(';'):
+        if e:
+            u, v, k, ridx, d, w = e.split(',')
+            es.append((int(u), int(v), int(ridx), d, w))
+    return ';'.join(','.join(map(str, e)) for e in sorted(es))
+
+
 def aslist(x):
     if x is None:
         return []
@@ -383,7 +393,7 @@ def case_bridge(ctx, case):
     G = reg.bridging_graph(reciprocal=rc_py)
     g_impl = graph_impl(G, reg, idx)
     g_model = ctx.ask(f'c08.graph {rc_tok} | {regs}')
-    ctx.corr(g_impl, g_model, 'bridging_graph edges (u,v,key,registration,direction,weight)', case)
+    ctx.corr(canon_graph(g_impl), canon_graph(g_model), 'bridging_graph edges (u,v,registration,direction,weight)', case)
     exp_inv = ';'.join('1' if rg['tk'] in ('affine', 'alias') else '0' for rg in case['regs'])
     ctx.corr(';'.join('1' if t_.invertible else '0' for t_ in reg.transforms), exp_inv,
              'invertible flag of the registrations (hasattr __neg__)', case)
@@ -408,7 +418,15 @@ def case_bridge(ctx, case):
     atok = ','.join(str(idx[v]) for v in aslist(avoid))
     st = f'{idx[s]},{idx[t]}'
     m_w = ctx.ask(f'c08.find w {rc_tok} | {regs} | {st} | {vtok} | {atok} | {sh} | {enum}')
-    as_written_agrees = ctx.corr(impl, m_w, 'find_bridging_path decision (model of the code as written, on networkx\' enumeration)', case)
+    as_written_agrees = impl == m_w
+    if as_written_agrees:
+        ctx.corr(impl, m_w, 'find_bridging_path decision (model of the code as written, on networkx\' enumeration)', case)
+        ctx.count('decision_model', 'as-written')
+    else:
+        # a repaired implementation (DESIGN §6 #9) must agree with the repaired model instead
+        m_r = ctx.ask(f'c08.find r {rc_tok} | {regs} | {st} | {vtok} | {atok} | {sh} | {enum}')
+        ctx.count('decision_model', 'repaired' if impl == m_r else 'neither')
+        ctx.corr(impl, m_r, f'find_bridging_path decision: neither the model of the code as written ({m_w}) nor the repaired model', case)
 
     # ---- property oracle on the returned path ----------------------------------------------------
     known_nodes = impl not in ('ERR:no-regs', 'ERR:src-unknown', 'ERR:tgt-unknown', 'ERR:via-unknown') and not impl.startswith('ERR:other')
@@ -425,11 +443,17 @@ def case_bridge(ctx, case):
         ctx.oracle(ok, f'find_bridging_path({s}->{t}, via={via}, avoid={avoid}) returned {path}: not an admissible path '
                        f'(simple path honouring via and avoid); admissible paths available: {chk[1]}', case, signature=sig)
         if not via and not avoid:
-            ctx.corr(chk[3], chk[2], 'total weight of the returned path vs. minimal weight over all simple paths', case)
-        # choice among parallel edges
+            # not part of the property (any admissible path is fine): recorded, never an alarm
+            ctx.count('weight_of_returned_path', 'minimal' if chk[3] == chk[2] else 'not-minimal')
+        # choice among parallel edges: each transform must be ONE OF the edges joining the two nodes (the
+        # property leaves the choice free); agreement with the choice as written is recorded only
         uid2ridx = {t_.transform._vuid: i for i, t_ in enumerate(reg.transforms)}
-        picks = ','.join(f"{uid2ridx[tr._vuid]}:{'f' if tr is reg.transforms[uid2ridx[tr._vuid]].transform else 'i'}" for tr in transforms)
-        ctx.corr(picks, ctx.ask(f'c08.picks {rc_tok} | {regs} | {impl}'), 'transform chosen among parallel edges', case)
+        picks = [f"{uid2ridx[tr._vuid]}:{'f' if tr is reg.transforms[uid2ridx[tr._vuid]].transform else 'i'}" for tr in transforms]
+        ctx.count('parallel_choice', 'as-written' if ','.join(picks) == ctx.ask(f'c08.picks {rc_tok} | {regs} | {impl}') else 'other')
+        gm = {(e.split(',')[0], e.split(',')[1], e.split(',')[3] + ':' + e.split(',')[4]) for e in g_model.split(';') if e}
+        hops = [(str(idx[a]), str(idx[b]), pk) for a, b, pk in zip(path[:-1], path[1:], picks)]
+        ctx.corr([h for h in hops if h not in gm] + [len(picks)], [len(path) - 1],
+                 'every returned transform is an edge of the model graph between consecutive path nodes', case)
     elif known_nodes:
         chk = ctx.ask(f'c08.check {rc_tok} | {regs} | {st} | {vtok} | {atok} | {st.split(",")[0]}').split()
         ctx.oracle(chk[1] == '0', f'find_bridging_path({s}->{t}, via={via}, avoid={avoid}) raised {impl} although '
@@ -599,6 +623,31 @@ def all_queries(spec):
         for t in names:
             for (v, a) in menu:
                 yield dict(s=s, t=t, via=v, avoid=a)
+
+
+def exhaustive3(r):
+    """Thorough tier: ALL registry graphs on three templates (every ordered pair absent / forward-only /
+    invertible: 3^6 graphs) × all source≠target pairs × a via/avoid menu over the third template."""
+    import itertools
+    names = ['T0', 'TMPL1', 'T2x']
+    while True:
+        frames = [rand_frame(r) for _ in range(3)]
+        E = {(a, b): m_comp(m_inv(frames[a]), frames[b]) for a in range(3) for b in range(3) if a != b}
+        if all(inv_exact(M) and small(M, 14, 14) for M in E.values()):
+            break
+    pairs = sorted(E)
+    world = gen_world(r, [[fs(x) for x in fr] for fr in frames])
+    for assign in itertools.product([0, 1, 2], repeat=6):
+        regs = [dict(s=a, t=b, tk='func' if k == 1 else 'affine', kind='bridging', w='1', mat=[fs(x) for x in E[(a, b)]])
+                for (a, b), k in zip(pairs, assign) if k]
+        spec = dict(names=names, frames=[[fs(x) for x in fr] for fr in frames], regs=regs)
+        for a in range(3):
+            for b in range(3):
+                if a == b:
+                    continue
+                x = names[3 - a - b]
+                for via, avoid in [(None, None), (x, None), (None, x), (x, x), (x, 'NOPE')]:
+                    yield 'bridge', dict(spec, query=dict(s=names[a], t=names[b], via=via, avoid=avoid), world=world[:2])
 
 
 # ---------------------------------------------------------------------------------------------
@@ -840,7 +889,8 @@ def case_cache(ctx, case):
     impl.append(f'N={len(reg.transforms)}')
     model = ctx.ask('c08.cache ' + ';'.join(ops_tok))
     ctx.count('cache_ops', len(case['ops']))
-    ctx.corr('#'.join(impl), model, 'graphs returned along a register/query history (lru_cache + clear_caches + skip_existing)', case)
+    canon = lambda x: '#'.join(canon_graph(g) if not g.startswith('N=') else g for g in x.split('#'))
+    ctx.corr(canon('#'.join(impl)), canon(model), 'graphs returned along a register/query history (lru_cache + clear_caches + skip_existing)', case)
 
 
 def gen_cache(r):
@@ -929,7 +979,7 @@ def case_sbs(ctx, case):
         leg = seq[pos:end + 1]
         chk = ctx.ask(f"c08.check 1/2 | {regs} | {idx[a]},{idx[b]} |  |  | {','.join(str(idx[x]) for x in leg)}").split()
         good = good and chk[0] == '1'
-        ctx.corr(chk[3], chk[2], 'weight of a leg of shortest_bridging_seq vs minimal weight (inverse edges count half)', case)
+        ctx.count('sbs_leg_weight', 'minimal' if chk[3] == chk[2] else 'not-minimal')
         pos = end
     good = good and pos == len(seq) - 1
     ctx.oracle(good, f'shortest_bridging_seq({s}->{t}, via={via}) = {seq}: not a chain of paths through the way-stations in order', case)
@@ -1001,7 +1051,7 @@ def gen_cases(ctx):
     yield 'sbs', dict(long_, query=dict(s='A', t='B', via='LONGNAME'), world=[['1', '2', '3']])
     yield 'sbs', dict(long_, query=dict(s='A', t='B', via=None), world=[['1', '2', '3']])
 
-    for _ in range(ctx.budget(80, 400) * boost):
+    for _ in range(ctx.budget(80, 700) * boost):
         spec = gen_registry(r, thorough)
         if thorough and r.random() < 0.12 and len(spec['names']) <= 4:
             qs = list(all_queries(spec))
@@ -1013,15 +1063,17 @@ def gen_cases(ctx):
             yield 'bridge', dict(spec, query=q, world=gen_world(r, spec['frames']),
                                  dtype=r.choice(['float64', 'float64', 'float64', 'float32', 'list', 'frame'])
                                  if True else 'float64')
-    for _ in range(ctx.budget(300, 2500) * boost):
+    if thorough and not ctx.search_mode:
+        yield from exhaustive3(r)
+    for _ in range(ctx.budget(300, 5000) * boost):
         yield 'seq', gen_seq(r)
-    for _ in range(ctx.budget(200, 1500) * boost):
+    for _ in range(ctx.budget(200, 3000) * boost):
         yield 'affine', gen_affine(r)
     for _ in range(ctx.budget(40, 300)):
         yield 'affine_tol', dict(seed=r.randrange(10 ** 9), n=r.choice([1, 3, 10]))
-    for _ in range(ctx.budget(150, 1200) * boost):
+    for _ in range(ctx.budget(150, 2500) * boost):
         yield 'cache', gen_cache(r)
-    for _ in range(ctx.budget(60, 400) * boost):
+    for _ in range(ctx.budget(60, 800) * boost):
         spec = gen_registry(r)
         names = spec['names']
         for _ in range(4):
@@ -1064,13 +1116,13 @@ def run(ctx):
                 c['dtype'] = 'float64'
         ctx.case(c, nontrivial=True, sample_every=400)
         ctx.count('kind', kind)
-        RUNNERS[kind](ctx, {k: v for k, v in c.items() if k != 'kind'})
+        RUNNERS[kind](ctx, c)
 
 
 def replay(ctx, rp):
     case = rp['case']
     ctx.case(case)
-    RUNNERS[case['kind']](ctx, {k: v for k, v in case.items() if k != 'kind'})
+    RUNNERS[case['kind']](ctx, case)
 
 
 def shrink(ctx, failure):
@@ -1085,7 +1137,7 @@ def shrink(ctx, failure):
         sub.drv = ctx.drv
         sub.known = []
         try:
-            RUNNERS[c['kind']](sub, {k: v for k, v in c.items() if k != 'kind'})
+            RUNNERS[c['kind']](sub, c)
         except Exception:
             return None
         for f in sub.failures:
